@@ -27,7 +27,8 @@ CHECKS = {
              "spelling read, algebraic laws). Every real `crd info key conv` run (quick: all chains <= 3 + seeded long chains; thorough: all 152,880 "
              "chains <= 6 + 3,000 long ones) is validated by TLC: printed set = Spellings(Fold(chain)).",
         note=TB,
-        technique="TLA+ mechanism model refined to a what-level model (TLC exhaustive) + TLC trace validation of real CLI runs"),
+        technique="TLA+ mechanism model refined to a what-level model (TLC exhaustive) + TLC trace validation of real CLI runs and of "
+                  "op.KeyConversionChain in-process for every chain up to length 5 (quick) / 6 (thorough)"),
     "C15": dict(
         text="TheoryMC: textbook Size equals an independent scale-walk formulation and Parse(Print(iv)) = iv for n <= 64 x 7 qualities. Every interval "
              "notation (6 marks x n) x 21 roots x 2 preferences through the real `info attr describe`, all notation strings up to the bound through "
@@ -46,13 +47,15 @@ CHECKS = {
              "chords); history part: seeded documents with key changes anywhere, +/- --key. Every chord the real `crd write` sounded (SMF bytes, decoded by the "
              "independent reader) is compared by TLC, grouping note-ons by file order so the verdict does not depend on timing.",
         note=TB,
-        technique="TLA+ what-layer (Piece.tla) + TLC validation of events decoded from the real CLI's SMF output"),
+        technique="TLA+ what-layer (Piece.tla) + how-layer (Play.tla, model-checked = Meaning(doc)) + TLC validation of events decoded from the "
+                  "real CLI's SMF output and of call traces of the real play package"),
     "C02": dict(
         text="Exact rational arithmetic in Piece.tla (round(T*v), either neighbour at an exact half): every chord's strikes at Start(i), releases at Start(i+1), "
              "rests silent, first instance at 0, release-before-strike per track. Bounded-exhaustive sequences over 15 instance kinds (length <= 2 quick, <= 3 "
              "thorough) + seeded long sequences, each through the real `crd write`.",
         note=TB + "; float64 vs rational can only differ within 1e-13 of a half tick, generators stay >= 1/128 tick away except the dedicated exact-half cases",
-        technique="TLA+ what-layer (Piece.tla timeline) + TLC validation of decoded SMF ticks, bounded-exhaustive + seeded"),
+        technique="TLA+ what-layer (Piece.tla timeline) + how-layer (Writer.tla) + TLC validation of decoded SMF ticks (bounded-exhaustive + seeded) "
+                  "and of step-level traces of the real midix writer"),
     "C06": dict(
         text="Writer.tla models the writer's time bookkeeping (pending delta, per-track pending delay, TrackSet.Add as the primitive); TLC checks ClockInv, "
              "EOTInv and refinement of the single timeline for all call sequences <= L on N = 1..5 tracks, and finds the design-level counterexamples of "
@@ -68,7 +71,8 @@ CHECKS = {
              "settings, txt/lic/mrk); TLC requires exactly those, at Start(i), with us/quarter = 60e6/bpm (either neighbour), nn/2^dd, sf/mi by "
              "circle-of-fifths arithmetic, UTF-8 payload bytes, and velocity persistence / strict loudness order. All 28 keys, 6 dynamics, seeded flag subsets.",
         note=TB + "; bpm drawn from 4..60,000,000 and meter denominators from powers of two <= 128 (outside, SMF cannot carry the written value)",
-        technique="TLA+ what-layer (Piece.tla Demands) + TLC validation of decoded SMF meta events of the real CLI"),
+        technique="TLA+ what-layer (Piece.tla Demands) + how-layer (Play.tla Opt cells, model-checked) + TLC validation of decoded SMF meta events "
+                  "of the real CLI and of call traces of the real play package"),
     "C08": dict(
         text="SMF.tla is a byte-level recogniser written from the SMF 1.0 specification: one TLC state per byte of every file the real `crd write` produced "
              "(seeded documents x track counts x --program x --instrument, stdout and -o), checking header, format/ntrks, chunk lengths, VLQs, running status, "
@@ -88,7 +92,9 @@ CHECKS = {
              "checked); ChordLangMC: the hand-written recogniser agrees with the grammar on all token strings <= N and all single-token mutations of "
              "sentences; LexerMC: progress, termination, nothing-dropped and mode discipline for all inputs <= K runes. Binding: every sentence rendered with "
              "seeded trivia, concatenations (long pieces), every proper prefix, token mutations, and ALL strings over 20 runes up to n (3 quick / 4 thorough) "
-             "go through the real `crd text parse` under a watchdog; TLC requires accepted iff Lexer o ChordLang accept, tree equal, refusal = error.",
+             "go through the real `crd text parse` under a watchdog; TLC requires accepted iff Lexer o ChordLang accept, tree equal, refusal = error. "
+             "In-process: ALL token strings <= 4/5 and every single-token mutation of every sentence injected into the shipped LALR tables (TokenTrace); "
+             "the real lexer validated token by token incl. source spans and mode flags (LexerTrace, verif hooks; mechanism drift, not a verdict).",
         note=TB + "; 'the parser shipped is the one goyacc generates' is decided behaviourally up to the bound",
         technique="TLA+ grammar/lexer specification, TLC-generated sentences replayed into the real CLI, TLC validation of every outcome"),
     "C05": dict(
@@ -126,5 +132,6 @@ CHECKS = {
              "producer, termination. Every data-producing command is run k times (8 quick / 40 thorough) across GOMAXPROCS 1/2/4/16, --debug, stdin/-/FILE, "
              "stdout/-o (thorough: -race build too); TLC requires one (success, sha-256) per request class, and --debug runs equal to plain runs.",
         note=TB + "; a 2-way order flip escapes k repetitions with probability 2^-(k-1)",
-        technique="PlusCal model of the iterator (exhaustive interleavings) + TLC validation of repeated-run histories of the real CLI"),
+        technique="PlusCal model of the iterator (exhaustive interleavings), its properties checked on the real iterator in-process, + TLC "
+                  "validation of repeated-run histories of the real CLI across CPU counts, --debug and I/O paths"),
 }
